@@ -219,10 +219,6 @@ def payload(t):
         # the success payload of `Ok(v) | Err(e)` is v: failure alternatives carry no payload (they arise when a helper that
         # returns a Result has been inlined, so that both of its return values are visible)
         xs = [x for x in t[1] if not (x[0] == 'agg' and x[2] in FAILURE_VARIANTS and x[1] and x[1].startswith(WRAPPER_ADTS)) and x[0] != 'residual']
-        # likewise `Some(v) | None` (an inlined helper returning Option<T>, then `?` / `match`): the None next to a Some of the same
-        # Option is this wrapper's own failure value, not a payload
-        if any(x[0] == 'agg' and x[2] == 'Some' and x[1] and x[1].startswith('std::option::Option') for x in xs):
-            xs = [x for x in xs if not (x[0] == 'agg' and x[2] == 'None' and x[1] and x[1].startswith('std::option::Option'))]
         if not xs:
             xs = list(t[1])
         return mk_any([payload(x) for x in xs])
@@ -562,6 +558,15 @@ class Resolver:
             if fn.get('res') and '<T as std::convert::From<T>>::from' in fn['res']:
                 return args[0]
             return ('call', orig + '<%s>' % ','.join(ga), args, site)
+        # `opt?` on an Option (seen with both return values of an inlined Option-returning helper): the None next to a Some is this
+        # `?`'s own failure value and never reaches the continuation.  Decided here because only here the operand's type is known -
+        # under a Result the same None would be a success payload (`Result<Option<T>>`)
+        if orig == 'std::ops::Try::branch' and len(args) == 1 and args[0][0] == 'any' and \
+                (fn.get('args') or [''])[0].replace('std::', '').replace('option::', '').startswith('Option<'):
+            xs = list(args[0][1])
+            if any(x[0] == 'agg' and x[2] == 'Some' for x in xs):
+                xs = [x for x in xs if not (x[0] == 'agg' and x[2] == 'None')]
+                args = (mk_any(xs),)
         # locally implemented trait methods: name the impl body
         if fn.get('res_local') and fn.get('res'):
             callee = strip_generics(fn['res'])
